@@ -764,4 +764,55 @@ theorem saveQueue_err (g : Graph) (fuel : Nat) : ∀ (q : List (Option Nat)) (s 
             obtain ⟨y, p⟩ := h3 c hc
             exact ⟨y, transGen_mono (fun a b e => EdgeS.back P.steps e) p⟩
 
+/-! ### the whole queue, from a start state whose `out` holds no object statement -/
+
+/-- a successful run of the queue: the new statements `ws`, their `Trace`, and every queue entry written -/
+theorem run_trace {g : Graph} {fuel : Nat} {q : List (Option Nat)} {status : List Status} {pre : List Write} {s : St}
+    (hpre : ∀ w ∈ pre, w.obj? = none)
+    (h : saveQueue g fuel q { status := status, out := pre } = .ok s) :
+    ∃ ws, s.out = pre ++ ws ∧ Trace g { status := status, out := pre } s ws
+      ∧ ∀ x, some x ∈ q → Pending (statusOf status x) ∧ stmtOf (statusOf status x) x ∈ ws := by
+  obtain ⟨hst, hall⟩ := saveQueue_spec g fuel q _ _ h
+  obtain ⟨ws, T⟩ := hst.trace
+  refine ⟨ws, T.out_eq, T, ?_⟩
+  intro x hx
+  have hw := hall x hx
+  rw [written_iff, T.out_eq] at hw
+  obtain ⟨w, hw, hwx⟩ := hw
+  rcases List.mem_append.mp hw with hw | hw
+  · rw [hpre w hw] at hwx; simp at hwx
+  · obtain ⟨y, hy, hpy, _⟩ := T.writes w hw
+    have : y = x := by
+      rw [hy, stmtOf_obj] at hwx; simpa using hwx
+    subst this
+    exact ⟨hpy, hy ▸ hw⟩
+
+theorem filter_unique {α : Type} {p : α → Bool} {a : α} : ∀ {l : List α}, l.Nodup → a ∈ l →
+    (∀ b ∈ l, p b = true → b = a) → p a = true → l.filter p = [a] := by
+  intro l
+  induction l with
+  | nil => intro _ h; simp at h
+  | cons c l ih =>
+    intro hn hm hall hp
+    rw [List.nodup_cons] at hn
+    by_cases hca : c = a
+    · subst hca
+      have : l.filter p = [] := by
+        rw [List.filter_eq_nil_iff]
+        intro b hb hpb
+        have := hall b (by simp [hb]) hpb
+        subst this
+        exact hn.1 hb
+      simp [hp, this]
+    · have hpc : p c = false := by
+        cases hpc : p c with
+        | false => rfl
+        | true => exact absurd (hall c (by simp) hpc) hca
+      have hm' : a ∈ l := by
+        rcases List.mem_cons.mp hm with h | h
+        · exact absurd h.symm hca
+        · exact h
+      simp [hpc]
+      exact ih hn.2 hm' (fun b hb => hall b (by simp [hb])) hp
+
 end PonyVerif.Model.SaveOrder
